@@ -137,6 +137,7 @@ def condfail_cases(rng, tier):
             if kind == 't32':
                 st['_thumb32'] = True
         st['sys'][icpsr] = cpsr
+        st['sys'][t['sys_names'].index('event_register')] = rng.getrandbits(1)
         stepgen.put_instr(st, w, 16 if kind == 't16' else 32)
         out.append({'impl': {'kind': 'step_condfail', 'state': stepgen.clean(st), 'length': length}, 'model': None, 'spec': '[0]',
                     'label': 'condfail_' + kind, 'nontrivial': True})
